@@ -182,7 +182,7 @@ impl Array6 {
     pub fn deserialize(
         mut cursor: SketchSlice,
         lg_config_k: u8,
-        compact: bool,
+        _compact: bool,
         ooo: bool,
     ) -> Result<Self, Error> {
         let k = 1 << lg_config_k;
@@ -205,13 +205,10 @@ impl Array6 {
 
         // Read packed byte array from offset HLL_BYTE_ARR_START
         let mut data = vec![0u8; num_bytes];
-        if !compact {
-            cursor
-                .read_exact(&mut data)
-                .map_err(insufficient_data("data"))?;
-        } else {
-            cursor.advance(num_bytes as u64);
-        }
+        // the register array is present in compact images too (the flag only changes the Hll4 aux layout)
+        cursor
+            .read_exact(&mut data)
+            .map_err(insufficient_data("data"))?;
 
         // Create estimator and restore state
         let mut estimator = HipEstimator::new(lg_config_k);
